@@ -64,6 +64,7 @@ func BuildWorlds(cfg Config, prop string, nFix, nSyn, rejectPct int, rich bool, 
 				opts.Surroundings = 3
 			case 1:
 				opts.Nested = true
+				opts.GetterTwin = true
 				opts.NoSiblings = true
 				opts.Big = 2
 				opts.Surroundings = 1
@@ -77,6 +78,7 @@ func BuildWorlds(cfg Config, prop string, nFix, nSyn, rejectPct int, rich bool, 
 				opts.Surroundings = 2
 			case 3:
 				opts.SetupName = "catalog.go"
+				opts.GetterTwin = true
 				opts.Competing = true
 				opts.Collide = true
 			}
